@@ -13,11 +13,14 @@ rejection, decimal conversions); an arm that is not recognised becomes `SUnclass
 text in a COMMENT next to the row: the tie (proofs/SerDispatchTie.v) then still pins WHICH kinds have an arm
 in each method, but not what an unclassified arm does (left to the correspondence runs; listed in the
 generated file)."""
-import re, sys
-sys.path.insert(0, __file__.rsplit("/", 1)[0])
+import os, re, sys
+sys.path.insert(0, os.path.dirname(os.path.abspath(__file__)))
 import rustmatch as R
+import rustast as A
+import rustnorm as N
+import gen_dispatch as D
 from rustmatch import ShapeError
-from gen_dispatch import KINDS, fn_context, balanced
+from gen_dispatch import KINDS, fn_context, balanced, Source, dispatch_match, arm_texts
 
 TABLES = [("serialize_bool", "gen_ser_bool"), ("serialize_integer", "gen_ser_integer"),
           ("serialize_f32", "gen_ser_f32"), ("serialize_f64", "gen_ser_f64"),
@@ -41,8 +44,7 @@ PH = {
     "__ERR__": r"(?:SerError :: custom|SerError :: new)",
 }
 def rx(template):
-    toks = R.drop_trailing_commas(R.tokenize(template))
-    return re.compile(" ".join(PH.get(t, re.escape(t)) for t in toks) + r"\Z")
+    return D.rx(template, PH, "DatumSerializer")
 
 WRITE_ALL = "self.state.writer.write_all(%s).map_err(SerError::io)"
 INTW = {"i32": "Wi32", "i64": "Wi64"}
@@ -119,72 +121,42 @@ def mk_rules(fn, nparams):
             lambda m: "SDecimalFromF64 DBig" if ok(m) else None),
     ]
 
-def canon_arm(body, binds, ctx):
-    body = R.drop_trailing_commas(body)
-    body = R.unwrap_closure_blocks(body)
-    body = R.unwrap_block(body)
-    al = {}
-    if body and body[0] == "{" and R.match_close(body, 0) == len(body) - 1:
-        stmts = R.split_top(body[1:-1], ";")
-        al, rest = R.take_aliases(stmts)
-        inner = []
-        for i, s in enumerate(rest):
-            if i:
-                inner.append(";")
-            inner.extend(s)
-        body = R.unwrap_block(["{"] + inner + ["}"])
-    m = dict(ctx)
-    m.update(al)
-    for name, canon in (binds or {}).items():
-        m[name] = [canon]
-    body = R.subst(body, m)
-    body = R.rename_bound(body)
-    body = R.blank_strings(body)
-    return " ".join(body)
-
-def table_of(fn, params, body):
-    ctx = fn_context(params)
+def table_of(src, fn):
+    ctx = fn_context(fn.params)
     nparams = len(ctx)
-    rules = mk_rules(fn, nparams)
-    stmts = R.split_top(body, ";")
-    al, rest = R.take_aliases(stmts)
-    if len(rest) != 1 or not rest[0]:
-        raise ShapeError("body is not [aliases;] one expression")
-    expr = R.subst(rest[0], al)
-    if expr[0] != "match":
-        raise ShapeError("body is not a match")
-    k = 1
-    while k < len(expr) and expr[k] != "{":
-        k += 1
-    if k >= len(expr) or R.match_close(expr, k) != len(expr) - 1:
-        raise ShapeError("body is not a single match")
-    scrut = expr[1:k]
-    if scrut[:1] == ["*"]:
-        scrut = scrut[1:]
-    if scrut != ["self", ".", "schema_node"]:
-        raise ShapeError("match over %s, not over self.schema_node" % " ".join(scrut))
-    ctx2 = dict(ctx); ctx2.update(al)
+    rules = mk_rules(fn.name, nparams)
+    body = src.body(fn, "DatumSerializer")
     rows = []
-    for pat, abody in R.split_arms(expr[k + 1:-1]):
+    for pat, guard, abody in dispatch_match(body):
+        ptoks = []
+        A.pr_pat(pat, ptoks)
         try:
-            kinds, binds, guard = R.parse_pattern(pat)
+            kinds, binds, _ = R.parse_pattern(ptoks)
         except ShapeError as e:
-            rows.append((len(KINDS) + 1, "DKUnparsed %s" % R.coq_string(" ".join(pat)), "SUnclassified", str(e)))
+            rows.append((len(KINDS) + 1, "DKUnparsed %s" % R.coq_string(" ".join(ptoks)), "SUnclassified", str(e)))
             continue
-        text = canon_arm(abody, binds, ctx2)
-        action, note = None, ""
-        for r, f in rules:
-            m = r.match(text)
-            if m:
-                action = f(m)
-                if action is not None:
-                    break
+        outer = dict(ctx)
+        for name, canon in (binds or {}).items():
+            outer[name] = [canon]
+        action, note, first = None, "", None
+        for text in arm_texts(src, fn, abody, outer, "DatumSerializer"):
+            if first is None:
+                first = text
+            for r, f in rules:
+                m = r.match(text)
+                if m:
+                    action = f(m)
+                    if action is not None:
+                        break
+            if action is not None:
+                break
+        text = first
         if guard is not None:
             # the one guard of this file compares a &str parameter with a literal: the literal is load-bearing
-            g = " ".join(R.subst(guard, ctx2))
-            mg = re.match(r'^__p(\d+) == ("(?:[A-Za-z0-9_]*)")\Z', g)
+            g = N.canonical_text(guard, outer, blank=False)
+            mg = re.match(r'^("(?:[A-Za-z0-9_]*)") == __p(\d+)\Z', g)
             if mg and action is not None:
-                action = "SIfParamIs %s %s (%s)" % (mg.group(1), mg.group(2), action)
+                action = "SIfParamIs %s %s (%s)" % (mg.group(2), mg.group(1), action)
             else:
                 action, note = None, "if " + g + " => "
         if action is None:
@@ -199,34 +171,24 @@ def table_of(fn, params, body):
     rows.sort(key=lambda r: (r[0], r[1]))
     return [(k, a, n) for _, k, a, n in rows]
 
-def forward_of(params, body):
-    ctx = fn_context(params)
-    stmts = R.split_top(body, ";")
-    al, rest = R.take_aliases(stmts)
-    m = dict(ctx); m.update(al)
-    inner = []
-    for i, s in enumerate(rest):
-        if i:
-            inner.append(";")
-        inner.extend(s)
-    return " ".join(R.blank_strings(R.rename_bound(R.subst(R.unwrap_closure_blocks(R.drop_trailing_commas(inner)), m))))
+def forward_of(src, fn):
+    return D.forward_of(src, fn, "DatumSerializer")
 
 def comment_safe(s):
     return s.replace("(*", "( *").replace("*)", "* )")
 
-def translate(path):
+def translate(path, crate_src=None):
     out = ["(* GENERATED by translators/gen_ser_dispatch.py from serde_avro_fast/src/ser/serializer/mod.rs -- do not edit *)",
            "From Coq Require Import String List NArith.",
            "Require Import Base Kinds DispatchKinds SerDispatchKinds.",
            "Import ListNotations.",
            "Open Scope string_scope.",
            "Open Scope N_scope."]
-    fns, err = {}, None
+    fns, err, src = {}, None, None
     try:
-        toks = R.tokenize(open(path).read())
+        src = Source(path, crate_src)
         for trait in ("Serializer", None):
-            f, _ = R.functions(R.find_impl(toks, trait, "DatumSerializer"))
-            for k, v in f.items():
+            for k, v in src.fns_of(trait, "DatumSerializer").items():
                 if k in fns:
                     raise ShapeError("fn %s defined twice" % k)
                 fns[k] = v
@@ -235,14 +197,17 @@ def translate(path):
     wanted = dict(TABLES)
     tables, forwards, unclassified = {}, [], []
     for name in sorted(fns):
-        params, body = fns[name]
+        fn = fns[name]
         try:
-            tables[name] = table_of(name, params, body)
+            try:
+                tables[name] = table_of(src, fn)
+            except (IndexError, KeyError, TypeError, RecursionError, AttributeError) as e:
+                raise ShapeError("construct not understood (%s)" % type(e).__name__)
         except ShapeError as e:
             if name in wanted:
                 tables[name] = [("DKWild", "SUnclassified", "%s: %s" % (name, e))]
             try:
-                forwards.append((name, forward_of(params, body)))
+                forwards.append((name, forward_of(src, fn)))
             except ShapeError as e2:
                 forwards.append((name, "? " + str(e2)))
     for meth, tbl in TABLES:
@@ -260,9 +225,15 @@ def translate(path):
     for n in sorted(t for t in tables if t not in wanted):
         forwards.append((n, "match"))
     forwards.sort()
-    out.append("(* methods that are not a match over self.schema_node: the canonical text of their body *)")
+    out.append("(* methods that are not a match over self.schema_node: the canonical text of their body when it is one")
+    out.append("   expression without blocks (these texts are what proofs/SerDispatchTie.v pins); the longer bodies are")
+    out.append("   listed by name, their text is in the comment that follows (not pinned) *)")
+    COMPLEX = "<body with blocks: see the comment below>"
+    long_texts = [(a, b) for a, b in forwards if "{" in b.split(" ")]
     out.append("Definition gen_ser_forward : list (string * string) :=\n  [ %s ]." % ";\n    ".join(
-        "(%s, %s)" % (R.coq_string(a), R.coq_string(b, limit=1200)) for a, b in forwards))
+        "(%s, %s)" % (R.coq_string(a), R.coq_string(COMPLEX if "{" in b.split(" ") else b, limit=1200)) for a, b in forwards))
+    for a, b in long_texts:
+        out.append("(* %s: %s *)" % (a, comment_safe(b)[:1500]))
     out.append("(* arms left unclassified (their text is in the comments above): %d" % len(unclassified))
     for u in unclassified:
         out.append("     " + u)
@@ -271,7 +242,7 @@ def translate(path):
 
 if __name__ == "__main__":
     repo, outp = sys.argv[1], sys.argv[2]
-    txt = translate(repo + "/serde_avro_fast/src/ser/serializer/mod.rs")
+    txt = translate(repo + "/serde_avro_fast/src/ser/serializer/mod.rs", repo + "/serde_avro_fast/src")
     try:
         old = open(outp).read()
     except OSError:
